@@ -101,8 +101,8 @@ PROPERTIES = {
         assumptions=['derived Hash/Eq of PeerId obey the hash-set key model'],
     ),
     'C10': dict(
-        units=['active_peers'],
-        canaries=['dialing'],
+        units=['active_peers', 'wire'],
+        canaries=['dialing', 'streams'],
         counterexample=cex.cex_c10,
         extra=[validate.admission_scenarios],
         scope='the admission block of handle_incoming_task (lifted) decides exactly as the statement says for every affinity table, limit and '
@@ -128,8 +128,8 @@ PROPERTIES = {
         assumptions=['Instant + Duration does not overflow; fewer than 2^64 consecutive failures'],
     ),
     'C03': dict(
-        units=['active_peers', 'crypto'],
-        canaries=['dialing'],
+        units=['active_peers', 'crypto', 'wire'],
+        canaries=['dialing', 'streams'],
         extra=[validate.history_c03],
         scope='glue only: (a) the pinning verifier accepts a server certificate only if its public key is the expected identity AND the base verifier accepts it, '
               'and proof of key possession (handshake signature) is delegated unchanged to rustls restricted to Ed25519; (b) a dial with an expected identity goes through '
